@@ -142,6 +142,8 @@ pub struct View {
     pub tag: &'static str,
     pub map: Arc<ContractMap>,
     pub mode: Mode,
+    /// shared log of every request (used where programs run on threads the harness does not own)
+    pub log: Option<Arc<Mutex<Vec<Read>>>>,
 }
 
 #[derive(Debug, Clone)]
@@ -167,7 +169,7 @@ pub fn next_key(mut key: Key) -> Option<Key> {
 
 impl View {
     pub fn new(tag: &'static str, map: ContractMap, mode: Mode) -> Self {
-        View { tag, map: Arc::new(map), mode }
+        View { tag, map: Arc::new(map), mode, log: None }
     }
     pub fn empty(tag: &'static str) -> Self {
         View::new(tag, Default::default(), Mode::Lenient)
@@ -201,9 +203,11 @@ impl StateRead for View {
     type Error = StateErr;
     fn key_range(&self, contract_addr: ContentAddress, key: Key, num_values: usize) -> Result<Vec<Vec<Word>>, StateErr> {
         let resp = self.answer(&contract_addr.0, &key, num_values);
-        READS.with(|r| {
-            r.borrow_mut().push(Read { view: self.tag, contract: contract_addr.0, key: key.clone(), n: num_values, resp: resp.clone() })
-        });
+        let rd = Read { view: self.tag, contract: contract_addr.0, key: key.clone(), n: num_values, resp: resp.clone() };
+        if let Some(log) = &self.log {
+            log.lock().unwrap().push(rd.clone());
+        }
+        READS.with(|r| r.borrow_mut().push(rd));
         resp.ok_or(StateErr)
     }
 }
